@@ -22,7 +22,7 @@ def app_class(a):
 def run(ctx):
     out = os.path.join(ctx.work, 'wsdl_apps.json')
     cfg = pc.write_cfg(os.path.join(ctx.work, 'expw.cfg'), ['INIT Init', 'NEXT Next', 'CHECK_DEADLOCK FALSE'])
-    tlc.run('ExportWsdl', cfg, ctx.work, env={'OUT_FILE': out})
+    tlc.run('ExportWsdl', cfg, ctx.work, env={'OUT_FILE': out, 'FAMILY': ctx.tier})
     apps = json.load(open(out))
     apps.sort(key=lambda a: json.dumps(a, sort_keys=True))
     if ctx.quick:
